@@ -395,3 +395,310 @@ def gen_wild(rng, max_len, reserved_names=False):
   if all(sp['op'] == 'aggregate' for sp in specs):     # an empty pipeline cannot be iterated at all
     specs.insert(0, {'op': 'select', 'in': {'one': SELF}})
   return specs
+
+
+# ----------------------------------------------------------------------------- value shapes (round 9, package SC08b)
+# Record VALUES that are themselves containers whose shape interacts with the packing conventions of the operators
+# (`_get_inputs` returns the TUPLE of selected values, `_identity_fn(*x) = x`, `_normalize_outputs` wraps a non-tuple
+# result and re-wraps for SELF, `_get_outputs` gives ONE key the whole tuple of several outputs and zips otherwise):
+# tuples of length 0 / 1 / 2 / 3 (also nested, also holding None), lists of length 0 / 1 / 2, None, dicts, scalars.
+# `vs_value(shape, seed)`: the wire value; the ints inside vary with `seed` so that different keys / records differ.
+
+def vs_value(shape, seed=0):
+  a, b, c = 10 + seed, 20 + seed, 30 + seed
+  return {
+      't0': {'t': []}, 't1': {'t': [a]}, 't1-of-t2': {'t': [{'t': [a, b]}]}, 't1-of-t1': {'t': [{'t': [a]}]},
+      't1-of-none': {'t': [None]}, 't1-of-l1': {'t': [wl([a])]}, 't2': {'t': [a, b]}, 't2-of-t1': {'t': [{'t': [a]}, {'t': [b]}]},
+      't3': {'t': [a, b, c]}, 'l0': wl([]), 'l1': wl([a]), 'l1-of-t1': wl([{'t': [a]}]), 'l2': wl([a, b]), 'l3': wl([a, b, c]),
+      'none': None, 'dict': wd(u=a, v=b), 'dict-of-t1': wd(u={'t': [a]}), 'dict0': wd(), 'int': a, 'str': f's{a}', 'bool': bool(seed % 2),
+  }[shape]
+
+
+VS_SHAPES = ['t0', 't1', 't1-of-t2', 't1-of-t1', 't1-of-none', 't1-of-l1', 't2', 't2-of-t1', 't3', 'l0', 'l1', 'l1-of-t1', 'l2', 'l3',
+             'none', 'dict', 'dict-of-t1', 'dict0', 'int', 'str', 'bool']
+# shapes that are columns (list / tuple of rows): the batched arms
+VS_COLUMN_SHAPES = ['t0', 't1', 't1-of-t1', 't2', 't2-of-t1', 't3', 'l0', 'l1', 'l1-of-t1', 'l2', 'l3']
+
+
+def classify_value(v):
+  """generic shape label of a WIRE value (coverage is computed from the case, not from the generator's intention)"""
+  if v is None:
+    return 'none'
+  if isinstance(v, bool):
+    return 'bool'
+  if isinstance(v, int):
+    return 'int'
+  if isinstance(v, str):
+    return 'str'
+  if 't' in v or 'l' in v:
+    kind = 't' if 't' in v else 'l'
+    xs = v[kind]
+    lab = f'{kind}{min(len(xs), 3)}'
+    if len(xs) == 1 and kind == 't' and xs[0] is not None and not isinstance(xs[0], (bool, int, str)):
+      lab += '-of-container'
+    elif len(xs) == 1 and kind == 't' and xs[0] is None:
+      lab += '-of-none'
+    return lab
+  if 'd' in v:
+    return 'dict' if v['d'] else 'dict0'
+  return 'other'
+
+
+VS_LABELS = ['t0', 't1', 't1-of-container', 't1-of-none', 't2', 't3', 'l0', 'l1', 'l2', 'l3', 'none', 'dict', 'dict0', 'int', 'str', 'bool']
+VS_COLUMN_LABELS = ['t0', 't1', 't1-of-container', 't2', 't3', 'l0', 'l1', 'l2', 'l3']
+VS_NAMES = ['a', 'b', 'c']
+VS_OUT = ['x', 'y', 'z']
+
+
+def vs_records(shape, nrec=2, rows=None):
+  """dict records {'a','b','c': values of `shape`, 'k': int, 'n': {'d': value}}"""
+  out = []
+  for i in range(nrec):
+    out.append(wd(a=vs_value(shape, 3 * i), b=vs_value(shape, 3 * i + 1), c=vs_value(shape, 3 * i + 2), k=i,
+                  n=wd(d=vs_value(shape, 3 * i + 5))))
+  return out
+
+
+def vs_in_spec(nin, form):
+  keys = [N(x) for x in VS_NAMES[:nin]]
+  if form == 'path':
+    keys[0] = P('n', 'd')
+  if form == 'self':
+    keys[0] = SELF
+  if nin == 1 and form in ('one', 'path', 'self'):
+    return {'one': keys[0]}
+  return {'many': keys}
+
+
+def vs_out_spec(nout, form='names'):
+  keys = [N(x) for x in VS_OUT[:nout]]
+  if form == 'path':
+    keys[0] = P('x', 'w')
+  if form == 'self':
+    keys[0] = SELF
+  if nout == 1 and form != 'many':
+    return {'one': keys[0]}
+  return {'many': keys}
+
+
+def value_shape_cases(mk_case):
+  """The systematic table operator kind x #inputs (1..3) x #outputs (1..3) x value shape, with and without a user
+  function, with and without batch sizes.  `mk_case(specs, items, **kw)` builds the case."""
+  f = lambda n, **kw: dict(f=n, **kw)
+  i = 0
+  for shape in VS_SHAPES:
+    recs = vs_records(shape)
+    whole = [vs_value(shape, 0), vs_value(shape, 1)]            # the value IS the record
+    for nin in (1, 2, 3):
+      in_forms = ['one', 'many', 'path'] if nin == 1 else ['many', 'path'] if nin == 2 else ['many']
+      for nout in (1, 2, 3):
+        for inf in in_forms:
+          i += 1
+          ins = vs_in_spec(nin, inf)
+          outf = 'names' if i % 3 else ('path' if i % 2 else 'many')
+          outs = vs_out_spec(nout, outf)
+          # --- without a function: select / apply / assign only route
+          sel = {'op': 'select', 'in': ins, 'out': outs}
+          yield mk_case([sel], recs, tag='value-shape')
+          yield mk_case([{'op': 'apply', 'fn': None, 'in': ins, 'out': outs}], recs, tag='value-shape')
+          yield mk_case([{'op': 'assign', 'fn': None, 'in': ins, 'keys': outs}], recs, tag='value-shape')
+          # --- with a function that hands its arguments on: `tup` returns the tuple of its arguments, `ident` its one
+          #     argument (a tuple VALUE returned by a function is several outputs), `wrap1` a 1-tuple of it
+          fn = f('ident') if nin == 1 and i % 2 else f('tup')
+          yield mk_case([{'op': 'apply', 'fn': fn, 'in': ins, 'out': outs}], recs, tag='value-shape')
+          yield mk_case([{'op': 'assign', 'fn': fn, 'in': ins, 'keys': outs}], recs, tag='value-shape')
+          if nin == 1:
+            yield mk_case([{'op': 'apply', 'fn': f('wrap1'), 'in': ins, 'out': outs}], recs, tag='value-shape')
+        # a function RETURNING a value of this shape (whatever it is given)
+        yield mk_case([{'op': 'apply', 'fn': f('const', c=vs_value(shape, 7)), 'in': vs_in_spec(nin, 'many'), 'out': vs_out_spec(nout)}],
+                      recs, tag='value-shape')
+        yield mk_case([{'op': 'assign', 'fn': f('const', c=vs_value(shape, 7)), 'in': vs_in_spec(nin, 'many'), 'keys': vs_out_spec(nout)}],
+                      recs, tag='value-shape')
+      # select with its default output keys (= the input keys), SELF as the one output key, kwargs
+      yield mk_case([{'op': 'select', 'in': vs_in_spec(nin, 'one' if nin == 1 else 'many')}], recs, tag='value-shape')
+      yield mk_case([{'op': 'select', 'in': vs_in_spec(nin, 'many'), 'out': {'one': SELF}}], recs, tag='value-shape')
+      yield mk_case([{'op': 'apply', 'fn': None, 'in': vs_in_spec(nin, 'many'), 'out': {'one': SELF}}], recs, tag='value-shape')
+      yield mk_case([{'op': 'apply', 'fn': f('tup'), 'in': vs_in_spec(nin, 'many'), 'out': {'one': SELF}}], recs, tag='value-shape')
+      # a function RETURNING a value of this shape into SELF (the SELF re-wrap of `_normalize_outputs`)
+      yield mk_case([{'op': 'apply', 'fn': f('const', c=vs_value(shape, 7)), 'in': vs_in_spec(nin, 'many'), 'out': {'one': SELF}}],
+                    recs, tag='value-shape')
+      yield mk_case([{'op': 'apply', 'fn': f('const', c=vs_value(shape, 7)), 'in': vs_in_spec(nin, 'many'), 'out': {'many': [SELF]}}],
+                    recs, tag='value-shape')
+      # filter / sink see the selected values as they are
+      yield mk_case([{'op': 'sink', 'fn': f('tup'), 'in': vs_in_spec(nin, 'many'), 'is_sink': True}], recs, tag='value-shape')
+      yield mk_case([{'op': 'filter', 'fn': f('const', c=1), 'in': vs_in_spec(nin, 'many')}], recs, tag='value-shape')
+      if nin == 1:
+        yield mk_case([{'op': 'sink', 'fn': f('ident'), 'in': {'kw': [['x', N('a')]]}, 'is_sink': True}], recs, tag='value-shape')
+        yield mk_case([{'op': 'filter', 'fn': f('ident'), 'in': {'one': N('a')}}], recs, tag='value-shape')
+        yield mk_case([{'op': 'apply', 'fn': f('ident'), 'in': {'kw': [['x', N('a')]]}, 'out': {'one': N('x')}}], recs, tag='value-shape')
+    # the value as the WHOLE record
+    for nout in (1, 2, 3):
+      outs = vs_out_spec(nout)
+      yield mk_case([{'op': 'select', 'in': {'one': SELF}, 'out': outs}], whole, tag='value-shape')
+      yield mk_case([{'op': 'apply', 'fn': None, 'in': {'one': SELF}, 'out': outs}], whole, tag='value-shape')
+      yield mk_case([{'op': 'apply', 'fn': f('ident'), 'in': {'one': SELF}, 'out': outs}], whole, tag='value-shape')
+    yield mk_case([{'op': 'apply', 'fn': None, 'in': {'one': SELF}, 'out': {'one': SELF}}], whole, tag='value-shape')
+    yield mk_case([{'op': 'apply', 'fn': f('ident'), 'in': {'one': SELF}, 'out': {'one': SELF}}], whole, tag='value-shape')
+    yield mk_case([{'op': 'apply', 'fn': f('wrap1'), 'in': {'one': SELF}, 'out': {'one': SELF}}], whole, tag='value-shape')
+    yield mk_case([{'op': 'select', 'in': {'one': SELF}}], whole, tag='value-shape')
+    yield mk_case([{'op': 'select', 'in': {'many': [SELF, SELF]}, 'out': {'many': [N('x'), N('y')]}}], whole, tag='value-shape')
+    yield mk_case([{'op': 'sink', 'fn': f('ident'), 'in': {'one': SELF}, 'is_sink': True}], whole, tag='value-shape')
+    yield mk_case([{'op': 'batch', 'n': 2}], whole + [vs_value(shape, 2)], tag='value-shape')
+    # chains: the routed value has to survive several fn-less operators
+    yield mk_case([{'op': 'filter', 'fn': f('gt', c=-1), 'in': {'one': N('k')}},
+                   {'op': 'assign', 'fn': None, 'in': {'one': N('a')}, 'keys': {'one': N('y')}},
+                   {'op': 'select', 'in': {'many': [N('y'), N('b')]}},
+                   {'op': 'batch', 'n': 2}], vs_records(shape, 3), tag='value-shape')
+    yield mk_case([{'op': 'select', 'in': {'many': [N('a'), N('b')]}, 'out': {'one': N('x')}},
+                   {'op': 'select', 'in': {'one': P('x', 0)}, 'out': {'one': N('y')}},
+                   {'op': 'apply', 'fn': None, 'in': {'one': N('y')}, 'out': {'one': SELF}}], recs, tag='value-shape')
+  # --- with batch sizes: the values under the input keys are COLUMNS (list / tuple of rows) of that shape; None / int are
+  #     not columns (TypeError from `_batch_size`).  NOT generated: dict values under a batched operator — `len()` works on a
+  #     dict, `more_itertools.sliced` then raises KeyError(slice) (or, buffered with a list, `_concat` flattens its keys): the
+  #     Rebatch model (C19, shared) knows list / tuple / array columns only and says TypeError at entry
+  for shape in VS_COLUMN_SHAPES + ['none', 'int']:
+    for nin in (1, 2, 3):
+      recs = vs_records(shape, 3)
+      ins = vs_in_spec(nin, 'one' if nin == 1 else 'many')
+      same = {'many': [N(x) for x in VS_OUT[:nin]]} if nin > 1 else {'one': N('x')}
+      for b in (1, 2):
+        yield mk_case([{'op': 'select', 'in': ins, 'batch': b}], recs, tag='value-shape')
+        yield mk_case([{'op': 'select', 'in': ins, 'out': same, 'batch': b}], recs, tag='value-shape')
+        yield mk_case([{'op': 'apply', 'fn': None, 'in': ins, 'out': same, 'batch': b}], recs, tag='value-shape')
+        yield mk_case([{'op': 'apply', 'fn': None, 'in': ins, 'out': same, 'fn_batch': 3 - b, 'batch': b}], recs, tag='value-shape')
+        yield mk_case([{'op': 'apply', 'fn': f('tup'), 'in': {'many': ins.get('many', [ins.get('one')])}, 'out': same, 'fn_batch': b - 1, 'batch': b}],
+                      recs, tag='value-shape')
+        if nin > 1:
+          yield mk_case([{'op': 'select', 'in': ins, 'out': {'one': N('x')}, 'batch': b}], recs, tag='value-shape')
+      yield mk_case([{'op': 'select', 'in': ins}, {'op': 'batch', 'n': 2}], recs, tag='value-shape')
+      # assign + batch_size on streams that are aligned when the column has exactly b rows
+      rows = {'t1': 1, 't1-of-t1': 1, 'l1': 1, 'l1-of-t1': 1, 't2': 2, 't2-of-t1': 2, 'l2': 2, 't3': 3, 'l3': 3}.get(shape)
+      if rows:
+        yield mk_case([{'op': 'assign', 'fn': None, 'in': ins, 'keys': same, 'batch': rows}], recs, tag='value-shape')
+        yield mk_case([{'op': 'assign', 'fn': f('tup'), 'in': {'many': ins.get('many', [ins.get('one')])}, 'keys': same, 'batch': rows}],
+                      recs, tag='value-shape')
+
+
+def gen_value_shape_chain(rng):
+  """-> (specs, items): a random chain of 1..4 operators that only ROUTE (select, assign / apply without fn, apply of
+  `tup`, a trailing batch) over dict records whose fields have INDEPENDENTLY drawn value shapes (mixed per record)."""
+  shapes = {nm: rng.choice(VS_SHAPES) for nm in ('a', 'b', 'c', 'd')}
+  nrec = rng.choice([1, 2, 3, 4])
+  items = [wd(**{nm: vs_value(sh, 4 * i + j) for j, (nm, sh) in enumerate(shapes.items())}, k=i) for i in range(nrec)]
+  have = list(shapes) + ['k']
+  fresh = [x for x in FRESH]
+  specs = []
+  for _ in range(rng.randrange(1, 5)):
+    nin = rng.choice([1, 1, 2, 2, 3])
+    if len(have) < nin:
+      break
+    src = rng.sample(have, nin)
+    ins = {'one': N(src[0])} if nin == 1 and rng.random() < 0.6 else {'many': [N(x) for x in src]}
+    r = rng.random()
+    names = [x for x in fresh if x not in have]
+    if r < 0.35:                                    # assign without fn: copies under new names (or one name for all)
+      nout = 1 if rng.random() < 0.3 else nin
+      if len(names) < nout:
+        break
+      outs = names[:nout]
+      specs.append({'op': 'assign', 'fn': None, 'in': ins, 'keys': {'one': N(outs[0])} if nout == 1 and rng.random() < 0.6 else {'many': [N(x) for x in outs]}})
+      have = have + outs
+    elif r < 0.7:                                   # select: default keys, renamed, or one key for all
+      q = rng.random()
+      if q < 0.4:
+        specs.append({'op': 'select', 'in': ins})
+        have = list(dict.fromkeys(src))
+      else:
+        nout = 1 if q < 0.6 else nin
+        outs = (names + FRESH)[:nout]
+        specs.append({'op': 'select', 'in': ins, 'out': {'one': N(outs[0])} if nout == 1 and rng.random() < 0.6 else {'many': [N(x) for x in outs]}})
+        have = outs
+    else:                                           # apply: without fn / tup
+      nout = 1 if rng.random() < 0.3 else nin
+      outs = (names + FRESH)[:nout]
+      specs.append({'op': 'apply', 'fn': None if rng.random() < 0.6 else {'f': 'tup'}, 'in': {'many': [N(x) for x in src]} if 'one' not in ins or rng.random() < 0.5 else ins,
+                    'out': {'one': N(outs[0])} if nout == 1 and rng.random() < 0.6 else {'many': [N(x) for x in outs]}})
+      have = outs
+  if specs and specs[-1]['op'] in ('select', 'apply') and rng.random() < 0.25:
+    specs.append({'op': 'batch', 'n': rng.choice([1, 2])})
+  return specs, items
+
+
+def vs_arms(case):
+  """The value-shape arms a case exercises, computed from the case itself: for the FIRST operator (it reads the source
+  records as they are) `<kind><-fn|+fn><+batch>:in<n>:out<m>:<shape of the value under the first input key>`."""
+  from harness import lib_pipe as L
+  specs, items = case['specs'], case['src']['items']
+  if not specs or not items:
+    return []
+  sp = specs[0]
+  op = sp['op']
+  if op in ('aggregate',):
+    return []
+  if op == 'batch':
+    return [f'batch:in1:out1:{classify_value(items[0])}']
+  names, in_keys = L._norm_in(sp['in'])          # pylint: disable=protected-access
+  if not in_keys:
+    return []
+  try:
+    k = in_keys[0]
+    v = items[0]
+    if 'self' in k:
+      pass
+    elif 'lit' in k or 'skip' in k:
+      return []
+    else:
+      for s in ([k['n']] if 'n' in k else [k['i']] if 'i' in k else list(k['p'])):
+        v = v['d'][s] if isinstance(s, str) else (v.get('l') or v.get('t'))[s]
+  except Exception:  # pylint: disable=broad-except
+    return []
+  if op == 'select':
+    out = sp.get('out')
+    nout = len(L._norm_out(out)) if out is not None and L._norm_out(out) else len(in_keys)   # pylint: disable=protected-access
+    fn = '-fn'
+  elif op in ('apply', 'assign'):
+    nout = len(L._norm_out(sp['out'] if op == 'apply' else sp['keys']))                       # pylint: disable=protected-access
+    fn = '-fn' if sp.get('fn') is None else '+fn'
+  else:
+    nout, fn = 0, '+fn'
+  b = '+batch' if sp.get('batch') or sp.get('fn_batch') else ''
+  arms = [f'{op}{fn}{b}:in{min(len(in_keys), 3)}:out{min(nout, 3)}:{classify_value(v)}']
+  outs = L._norm_out(sp.get('out') or sp.get('keys') or {'many': []})                           # pylint: disable=protected-access
+  if len(outs) == 1 and 'self' in outs[0]:
+    arms.append(f'{op}{fn}{b}:in{min(len(in_keys), 3)}:outSELF:{classify_value(v)}')
+    if (sp.get('fn') or {}).get('f') == 'const':
+      arms.append(f"{op}+fn{b}:outSELF:returns:{classify_value(sp['fn']['c'])}")
+  elif (sp.get('fn') or {}).get('f') == 'const':
+    arms.append(f"{op}+fn{b}:out{min(nout, 3)}:returns:{classify_value(sp['fn']['c'])}")
+  return arms
+
+
+def vs_required():
+  """the promised grid (exit 2 if the generator misses one): operator kind x #inputs x #outputs x value shape"""
+  need = []
+  for lab in VS_LABELS:
+    for nin in (1, 2, 3):
+      for nout in (1, 2, 3):
+        for kind in ('select-fn', 'apply-fn', 'assign-fn', 'apply+fn', 'assign+fn'):
+          need.append(f'{kind}:in{nin}:out{nout}:{lab}')
+      for kind in ('filter+fn', 'sink+fn'):
+        need.append(f'{kind}:in{nin}:out0:{lab}')
+      for kind in ('select-fn', 'apply-fn', 'apply+fn'):
+        need.append(f'{kind}:in{nin}:outSELF:{lab}')
+    # a function RETURNING a value of that shape, with 1 / 2 / 3 output keys and with SELF
+    for out in ('out1', 'out2', 'out3', 'outSELF'):
+      need.append(f'apply+fn:{out}:returns:{lab}')
+    for out in ('out1', 'out2', 'out3'):
+      need.append(f'assign+fn:{out}:returns:{lab}')
+    need.append(f'batch:in1:out1:{lab}')
+  for lab in VS_COLUMN_LABELS + ['none', 'int']:
+    for nin in (1, 2, 3):
+      for kind in ('select-fn+batch', 'apply-fn+batch', 'apply+fn+batch'):
+        need.append(f'{kind}:in{nin}:out{nin}:{lab}')
+      if nin > 1:
+        need.append(f'select-fn+batch:in{nin}:out1:{lab}')
+  for lab in ('t1', 't1-of-container', 'l1', 't2', 'l2', 't3', 'l3'):
+    for nin in (1, 2, 3):
+      for kind in ('assign-fn+batch', 'assign+fn+batch'):
+        need.append(f'{kind}:in{nin}:out{nin}:{lab}')
+  return need
